@@ -61,6 +61,9 @@ type Program struct {
 
 	funcs    map[string]*ssa.Function // by canonical name
 	allFuncs []*ssa.Function          // module functions incl. anonymous and instantiations
+
+	// RenameNotes: functions of the reference tree found under a new name
+	RenameNotes []string
 }
 
 // Load type-checks the whole module from the working tree and builds SSA.
@@ -135,6 +138,7 @@ func Load(cfg Config) (*Program, error) {
 		p.funcs[fn.String()] = fn
 	}
 	sort.Slice(p.allFuncs, func(i, j int) bool { return p.allFuncs[i].String() < p.allFuncs[j].String() })
+	p.RenameNotes = p.resolveRenames()
 	return p, nil
 }
 
@@ -207,7 +211,7 @@ func ShortName(fn *ssa.Function) string {
 	if fn == nil {
 		return "<nil>"
 	}
-	return strings.ReplaceAll(fn.String(), ModulePath+"/", "")
+	return strings.ReplaceAll(CanonString(fn), ModulePath+"/", "")
 }
 
 // Syntax returns the *ast.File and package that contain pos.
